@@ -13,6 +13,7 @@ import itertools
 import json
 import os
 import random
+import re
 import shutil
 import sys
 import tempfile
@@ -96,7 +97,9 @@ def calibrate(spec, fn, arms, workdir):
     A.run(ctx)
     mapping = {}
     for f in os.listdir(cap):
-        base = f.split("__", 1)[1]
+        # "<function dir>__<N>.smt2": the directory name ends in random characters that may themselves be (or end in) underscores
+        base = f.rsplit("__", 1)[1]
+        assert re.fullmatch(r"\d+(\.refined)?\.smt2", base), f
         text = open(os.path.join(cap, f)).read()
         ctx3 = z3.Context()
         asserts = z3.parse_smt2_string(text.replace("(check-sat)", "").replace("(get-model)", ""), ctx=ctx3)
@@ -170,7 +173,11 @@ def scenario(arms, default_ok, replies, delays, flags, res, tag, scale=1.0):
         for i in need:
             res["features"][f"reply:{replies[i]}@{arms[i]}"] += 1
         if got not in want:
-            res.setdefault("candidates", []).append(dict(what=f"verdict {got} but the outcome/reply vector demands {sorted(want)}", key=f"verdict:{got}:{sorted(want)}", arms="".join(arms), default_ok=default_ok,
+            try:
+                stub_log = open(os.path.join(spath, "log")).read().split("\n")[:12]
+            except OSError:
+                stub_log = None
+            res.setdefault("candidates", []).append(dict(stub_log=stub_log, reply_keys=sorted(mapping), warnings=[str(w)[:160] for w in (getattr(out, "logs", None) or [])][:8],what=f"verdict {got} but the outcome/reply vector demands {sorted(want)}", key=f"verdict:{got}:{sorted(want)}", arms="".join(arms), default_ok=default_ok,
                                           replies={str(k): v for k, v in replies.items()}, delays={str(k): v for k, v in delays.items()}, flags={k: str(v) for k, v in flags.items()},
                                           exitcode=None if got == "NO-RESULT" else out.results[0].exitcode, exception=(out.exception or "")[-300:], tag=tag))
         return got
